@@ -351,7 +351,10 @@ def build():
     add(Spec("TransformedTargetRegressor2",
              [lambda: mm.TransformedTargetRegressor2(LinearRegression(), "log"),
               lambda: mm.TransformedTargetRegressor2(Ridge(alpha=0.2), FunctionReciprocalTransformer("log1p")),
-              lambda: mm.TransformedTargetRegressor2(transformer="exp")],
+              lambda: mm.TransformedTargetRegressor2(transformer="exp"),
+              # an inner regressor whose fit takes (X, y, coef_init, intercept_init, sample_weight)
+              lambda: mm.TransformedTargetRegressor2(__import__("sklearn.linear_model", fromlist=["x"]).SGDRegressor(
+                  max_iter=20, tol=None, random_state=0, learning_rate="constant", eta0=0.001), "log1p")],
              lambda r: (lambda D: {"X": D["X"], "y": numpy.abs(D["y"]) * 0.2 + 0.1})(reg_data(r)),
              lambda r: (lambda D: {"X": D["X"], "y": numpy.abs(D["y"]) * 0.2 + 0.1})(reg_data(r, n=30, d=2)),
              methods=["predict"], rowwise=["predict"],
